@@ -8,12 +8,12 @@ From PFDL.Check Require Import CheckModel.
 (* ------------------------------------------------------------------------------ *)
 Section StmtInd.
   Variable P : stmt -> Prop.
-  Hypothesis Hsvc : forall n ins outs, P (SService n ins outs).
-  Hypothesis Hcall : forall c, P (SCall c).
-  Hypothesis Hpar : forall cs, P (SParallel cs).
-  Hypothesis Hwhile : forall e b, Forall P b -> P (SWhile e b).
-  Hypothesis Hcount : forall par v l b, Forall P b -> P (SCount par v l b).
-  Hypothesis Hcond : forall e p f, Forall P p -> Forall P f -> P (SCond e p f).
+  Variable Hsvc : forall n ins outs, P (SService n ins outs).
+  Variable Hcall : forall c, P (SCall c).
+  Variable Hpar : forall cs, P (SParallel cs).
+  Variable Hwhile : forall e b, Forall P b -> P (SWhile e b).
+  Variable Hcount : forall par v l b, Forall P b -> P (SCount par v l b).
+  Variable Hcond : forall e p f, Forall P p -> Forall P f -> P (SCond e p f).
 
   Fixpoint stmt_ind' (s : stmt) : P s :=
     let go := fix go (l : list stmt) : Forall P l :=
@@ -33,11 +33,11 @@ End StmtInd.
 
 Section PvInd.
   Variable P : pv -> Prop.
-  Hypothesis Hnum : P PVNum.
-  Hypothesis Hbool : P PVBool.
-  Hypothesis Hstr : P PVStr.
-  Hypothesis Hstruct : forall fs, Forall (fun kv => P (snd kv)) fs -> P (PVStruct fs).
-  Hypothesis Harr : forall vs, Forall P vs -> P (PVArray vs).
+  Variable Hnum : P PVNum.
+  Variable Hbool : P PVBool.
+  Variable Hstr : P PVStr.
+  Variable Hstruct : forall fs, Forall (fun kv => P (snd kv)) fs -> P (PVStruct fs).
+  Variable Harr : forall vs, Forall P vs -> P (PVArray vs).
 
   Fixpoint pv_ind' (v : pv) : P v :=
     match v with
